@@ -174,6 +174,11 @@ def run(ctx):
     for case in cases:
         try:
             pts = impl.run_case(ib, rec, case, {"equilibrium": equilibrium})
+        except impl.GeneratorDomainError as ex:     # a fault of the generator: BROKEN-CHECK, never a property violation
+            rec.on = False
+            ctx.broken.append("generator produced an input outside the property's domain (case %s, %s, structure %s): %s"
+                              % (case["idx"], case["rep"], case.get("structure"), str(ex)[:400]))
+            continue
         except Exception as ex:      # an exception (or a non-finite result) on a valid input is a finding, not a harness fault
             import traceback
             rec.on = False
